@@ -313,7 +313,64 @@ def _c14():
     return {"E(7) || E(9)": setup, "E(1) || E(7)": lambda: setup_with(1, 7), "E(7) || E(7)": lambda: setup_with(7, 7)}
 
 
-_CASES = {"C05": _c05, "C07": _c07, "C08": _c08, "C09": _c09, "C10": _c10, "C11": _c11, "C13": _c13, "C14": _c14}
+def _c12():
+    import threading
+
+    tl = threading.local()
+
+    class Draws:
+        """Stand-in for the module-level random source: every thread draws from its own scripted list."""
+
+        def randrange(self, a, b=None, step=1):
+            lo, hi = (0, a) if b is None else (a, b)
+            v = tl.draws.pop(0) if tl.draws else 0
+            return lo + v % max(1, hi - lo)
+
+        def randint(self, a, b):
+            return self.randrange(a, b + 1)
+
+        def choice(self, seq):
+            return seq[self.randrange(0, len(seq))]
+
+        def random(self):
+            return 0.5
+
+    def body(m, kind, draws):
+        def run():
+            tl.draws = list(draws)
+            g = {"init": m.InitSequenceStart, "ping": m.PingSequenceStart, "account": m.AccountReplySequenceStart}[kind].generate()
+            return (g.value, getattr(g, "seq1", None), getattr(g, "seq2", None))
+
+        return run
+
+    def mk(ka, da, kb, db):
+        def fresh_module():
+            (m,) = threads.fresh(["eolib.packet.sequence_start"])
+            if getattr(m, "random", None) is not None:
+                m.random = Draws()
+            for name in ("randrange", "randint", "choice"):
+                if hasattr(m, name):
+                    setattr(m, name, getattr(Draws(), name))
+            return m
+
+        def setup():
+            m = fresh_module()
+            alone = [body(m, ka, da)(), body(m, kb, db)()]  # what each gets alone (sequentially, fresh module)
+            m = fresh_module()
+            return [body(m, ka, da), body(m, kb, db)], threads.judge_values(alone)
+
+        return setup
+
+    return {
+        "init generate || ping generate": mk("init", [879, 3], "ping", [1756, 251]),
+        "init generate || init generate (same draws)": mk("init", [0, 0], "init", [0, 0]),
+        "ping generate || account generate": mk("ping", [5, 0], "account", [239]),
+        "init generate (lowest value) || init generate (highest value)": mk("init", [0, 0], "init", [1756, 0]),
+        "ping generate (highest value) || ping generate (lowest value)": mk("ping", [1756, 0], "ping", [0, 0]),
+    }
+
+
+_CASES = {"C12": _c12, "C05": _c05, "C07": _c07, "C08": _c08, "C09": _c09, "C10": _c10, "C11": _c11, "C13": _c13, "C14": _c14}
 
 
 def cases(pid):
